@@ -299,6 +299,10 @@ def check(prop, tier, seed, no_build=False):
                     violations += C.differential_interactive(engine, gen, n, rng, tier, result,
                                                              nontrivial=cfg.get('nontrivial', nontrivial_default),
                                                              keep_prefix=cfg.get('keep_prefix', 0))
+            if tier == 'thorough' and not violations:
+                for engine in sorted(set(r[0] for r in cfg.get('iruns', []))):
+                    if engine in gens.EXHAUSTIVE and not violations:
+                        violations += C.differential_exhaustive(engine, gens.EXHAUSTIVE[engine], result)
             for run in cfg.get('runs', []):
                 engine, gen, nq, nt = run[:4]
                 n = nq if tier == 'quick' else nt
